@@ -316,6 +316,47 @@ class Check:
         os.replace(tmp, os.path.join(d, self.prop_id + ".json"))
 
 
+class DidNotTerminate(BaseException):
+    """the implementation call under a `time_limit` used up its budget (a BaseException, raised again every half second until the
+    block is left: an `except Exception` of the code under test must not swallow it)"""
+
+
+class time_limit:
+    """`with time_limit(secs):` — a watchdog for one call into the implementation, independent of the SIGALRM that bounds the whole
+    check: a helper thread raises DidNotTerminate in the calling thread (PyThreadState_SetAsyncExc) when the budget is used up, and
+    again every half second until the block is left.  A call that loops for ever in Python code is then reported by the check as a
+    failing input ("terminates" / "completes" is part of C04 and C07) instead of ending the check with its timeout."""
+
+    def __init__(self, secs=20.0):
+        self.secs = secs
+
+    def __enter__(self):
+        import ctypes
+        import threading
+        self.done = threading.Event()
+        target = threading.get_ident()
+
+        def watch():
+            if self.done.wait(self.secs):
+                return
+            while not self.done.is_set():
+                ctypes.pythonapi.PyThreadState_SetAsyncExc(ctypes.c_ulong(target), ctypes.py_object(DidNotTerminate))
+                if self.done.wait(0.5):
+                    return
+        self.thread = threading.Thread(target=watch, daemon=True)
+        self.thread.start()
+        return self
+
+    def __exit__(self, *exc):
+        import ctypes
+        import threading
+        self.done.set()
+        self.thread.join()
+        # an exception scheduled but not yet delivered must not hit the caller after the block
+        ctypes.pythonapi.PyThreadState_SetAsyncExc(ctypes.c_ulong(threading.get_ident()), ctypes.c_void_p(0))
+        return False
+
+
 def setup_repo_path():
     """import monkeytype from the tree under test (VERIF_REPO, default /repo), never from a stale cache"""
     sys.dont_write_bytecode = True
